@@ -315,3 +315,7 @@ impl Prop for C04 {
         vec!["parse-errors", "type-errors-only", "clean", "compile-entry-points-called", "non-ascii", "depth:33-64"]
     }
 }
+
+pub fn prop() -> Option<&'static dyn Prop> {
+    Some(&C04)
+}
